@@ -359,14 +359,13 @@ func (e *Engine) execSimple(act *Activation, p *Path, in ssa.Instruction) bool {
 	case *ssa.MakeMap:
 		id := e.newObj(p.st, nil)
 		e.obj(p.st, id).kind = kindMap
-		p.regs[x] = MapV{id}
+		p.regs[x] = MapV{obj: id}
 	case *ssa.MapUpdate:
 		m, ok := e.val(p, x.Map).(MapV)
 		if !ok {
 			unsup("map update on %T", e.val(p, x.Map))
 		}
-		if m.obj == 0 {
-			e.panicOutcome(p, e.True, "assignment to entry in nil map")
+		if !e.check(p, e.mapNonNil(m), "assignment to entry in nil map") {
 			return false
 		}
 		e.mapUpdate(p.st, m, e.val(p, x.Key), e.val(p, x.Value))
@@ -422,7 +421,11 @@ func (e *Engine) execSimple(act *Activation, p *Path, in ssa.Instruction) bool {
 			var cells []Value
 			cells = append(cells, e.Const(64, 0))
 			if xv.obj != 0 {
-				cells = append(cells, e.obj(p.st, xv.obj).cells...)
+				nn := e.mapNonNil(xv)
+				for _, c := range e.obj(p.st, xv.obj).cells {
+					en := c.(StructV)
+					cells = append(cells, StructV{[]Value{en.f[0], en.f[1], e.And(nn, en.f[2].(*Term))}})
+				}
 			}
 			p.regs[x] = IterV{obj: e.newObj(p.st, cells), m: xv}
 		case StrV:
@@ -493,15 +496,23 @@ func (e *Engine) indexAddr(p *Path, x *ssa.IndexAddr) bool {
 		if !e.derefCheck(p, xv, "array index") {
 			return false
 		}
-		ar, ok := e.load(p.st, xv).(ArrRef)
-		if !ok {
-			unsup("indexaddr through pointer to non-array (%T)", e.load(p.st, xv))
+		tg := e.arrTargets(p.st, xv)
+		if len(tg) == 0 {
+			unsup("indexaddr through pointer to non-array")
 		}
-		n := len(e.obj(p.st, ar.obj).cells)
+		n := len(e.obj(p.st, tg[0].obj).cells)
 		if !e.check(p, e.Cmp(OpUlt, idx, e.Const(64, uint64(n))), "index out of range") {
 			return false
 		}
-		p.regs[x] = Ptr{[]PtrAlt{{e.True, ar.obj, idx, nil}}}
+		np := Ptr{}
+		for _, t := range tg {
+			g := t.g
+			if len(tg) == 1 {
+				g = e.True
+			}
+			np.alts = append(np.alts, PtrAlt{g, t.obj, idx, nil})
+		}
+		p.regs[x] = np
 	default:
 		unsup("indexaddr on %T", xv)
 	}
@@ -860,7 +871,8 @@ func (e *Engine) valueEq(p *Path, a, b Value, t types.Type) *Term {
 		if x.obj != 0 && y.obj != 0 {
 			unsup("comparison of two non-nil maps")
 		}
-		return e.BoolC(x.obj == y.obj)
+		// m == nil
+		return e.And(e.Not(e.mapNonNil(x)), e.Not(e.mapNonNil(y)))
 	case SliceV: // slice == nil
 		y, ok := b.(SliceV)
 		if ok && len(y.p.alts) == 0 {
@@ -1137,4 +1149,41 @@ func (e *Engine) pureRegion(blk, J *ssa.BasicBlock) bool {
 		}
 	}
 	return true
+}
+
+type arrTarget struct {
+	g   *Term
+	obj int
+}
+
+// arrTargets resolves a pointer to an array value into the array objects it may designate (a symbolic offset
+// into an array of arrays designates one row per feasible index)
+func (e *Engine) arrTargets(st *State, pt Ptr) []arrTarget {
+	var out []arrTarget
+	for _, al := range pt.alts {
+		o := e.obj(st, al.obj)
+		if o == nil {
+			continue
+		}
+		if al.off.IsConst() {
+			k := int(al.off.val)
+			if k < 0 || k >= len(o.cells) {
+				continue
+			}
+			if ar, ok := getPath(o.cells[k], al.path).(ArrRef); ok {
+				out = append(out, arrTarget{al.g, ar.obj})
+			}
+			continue
+		}
+		for k := range o.cells {
+			c := e.And(al.g, e.Eq(al.off, e.Const(64, uint64(k))))
+			if c.IsFalse() {
+				continue
+			}
+			if ar, ok := getPath(o.cells[k], al.path).(ArrRef); ok {
+				out = append(out, arrTarget{c, ar.obj})
+			}
+		}
+	}
+	return out
 }
